@@ -76,4 +76,11 @@ def run(pid, spec, repo_src, results):
         out['bounded_corpus'] = dict(cases=tried, discrepancies=len(found), first=(found[0] if found else None))
     except Exception as e:
         out['bounded_corpus'] = dict(error='%s: %s' % (type(e).__name__, str(e)[:200]))
+    # 5. C17: the assumed from_iN contracts (A3) validated against the real rust_decimal code by complete Kani harnesses
+    if pid == 'C17':
+        try:
+            from . import kani
+            out['dependency_validation'] = kani.run_dependency_validation()
+        except Exception as e:
+            out['dependency_validation'] = [dict(harness='*', status='undecided', tail='%s: %s' % (type(e).__name__, str(e)[:200]))]
     return out
